@@ -3,33 +3,33 @@ import Yv.Spec.GenOps
 namespace Gen
 open GenOps
 
-/-- every `range` over a map in non-test code: (package, function, ranged expression) -/
+/-- every `range` over a map in non-test code: (package, function, ranged field or, for a local, its map type) -/
 def mapRangeSites : List (String × String × String) := [
-  ("grammar", "*Grammar.CalculateCanTerminate", "g.VnSet"),
-  ("lalr", "*LALR1.CaclIncludes", "lalr.DRSet"),
-  ("lalr", "*LALR1.CalcAllReadRelations", "lalr.DRSet"),
-  ("lalr", "*LALR1.CalcFollowSet", "lalr.ReadSet"),
-  ("lalr", "*LALR1.CalcLookbacks", "lalr.DRSet"),
-  ("lalr", "*LALR1.CalcReadSet", "lalr.DRSet"),
-  ("lalr", "*LALR1.CheckAndResolveConflict", "action_set"),
-  ("lalr", "*LALR1.GenTable", "set"),
-  ("lalr", "*LALR1.ShowDrSet", "lalr.DRSet"),
-  ("lalr", "*LALR1.ShowFollowSet", "lalr.FollowSet"),
-  ("lalr", "*LALR1.ShowLookAheadSet", "lalr.LookAheadSet"),
-  ("lalr", "*LALR1.ShowReadSet", "lalr.ReadSet"),
-  ("parser", "sortedIds", "m"),
-  ("utils", "PackTable", "nonZeroPos")
+  ("grammar", "*Grammar.CalculateCanTerminate", "field VnSet"),
+  ("lalr", "*LALR1.CaclIncludes", "field DRSet"),
+  ("lalr", "*LALR1.CalcAllReadRelations", "field DRSet"),
+  ("lalr", "*LALR1.CalcFollowSet", "field ReadSet"),
+  ("lalr", "*LALR1.CalcLookbacks", "field DRSet"),
+  ("lalr", "*LALR1.CalcReadSet", "field DRSet"),
+  ("lalr", "*LALR1.CheckAndResolveConflict", "map[int][]*lalr.Action"),
+  ("lalr", "*LALR1.GenTable", "map[int][]*lalr.Action"),
+  ("lalr", "*LALR1.ShowDrSet", "field DRSet"),
+  ("lalr", "*LALR1.ShowFollowSet", "field FollowSet"),
+  ("lalr", "*LALR1.ShowLookAheadSet", "field LookAheadSet"),
+  ("lalr", "*LALR1.ShowReadSet", "field ReadSet"),
+  ("parser", "sortedIds", "map[string]*parser.Idendity"),
+  ("utils", "PackTable", "map[int][]int")
 ]
 
 /-- calls made by TemplateGenFromString, in source order -/
 def calls_TemplateGenFromString : List String := ["parser.ParseAndBuild(input)", "fmt.Errorf(\"parse error: %s\", err)", "NewTemplateBuilder(w)", "b.buildConstPart()", "b.buildUionAndCode()", "b.buildAnalyTable()", "b.buildStateFunc()", "b.buildReduceFunc()", "b.buildTranslate()", "os.Create(file)", "fmt.Errorf(\"create file error: %s\", err)", "b.WriteFile(f)"]
 
-def ops_TemplateGenFromString : List Op := [.fallible, .other, .fallible, .fallible, .fallible, .fallible, .fallible, .fallible, .fallible, .create, .other, .other, .other, .other, .other, .write true, .other]
+def ops_TemplateGenFromString : List Op := [.fallible, .other, .fallible, .fallible, .fallible, .fallible, .fallible, .fallible, .fallible, .fallible, .fallible, .fallible, .fallible, .fallible, .fallible, .fallible, .fallible, .fallible, .fallible, .fallible, .fallible, .fallible, .fallible, .fallible, .fallible, .fallible, .fallible, .fallible, .fallible, .fallible, .fallible, .fallible, .fallible, .fallible, .fallible, .fallible, .fallible, .fallible, .fallible, .fallible, .fallible, .fallible, .fallible, .fallible, .fallible, .fallible, .fallible, .fallible, .fallible, .fallible, .create, .other, .other, .other, .other, .other, .write true, .other]
 
 /-- calls made by TsGenFromString, in source order -/
 def calls_TsGenFromString : List String := ["parser.ParseAndBuild(input)", "fmt.Errorf(\"parse error: %s\", err)", "NewTsBuilder(w)", "b.buildConstPart()", "b.buildUionAndCode()", "b.buildAnalyTable()", "b.buildStateFunc()", "b.buildReduceFunc()", "b.buildTranslate()", "os.Create(file)", "fmt.Errorf(\"create file error: %s\", err)", "f.WriteString(b.CodeHeader)", "f.WriteString(b.ConstPart)", "f.WriteString(b.UnionPart)", "f.WriteString(b.AnalyTable)", "f.WriteString(b.StateFunc)", "f.WriteString(b.ReduceFunc)", "f.WriteString(b.Translate)", "f.WriteString(b.CodeLast)", "f.Close()"]
 
-def ops_TsGenFromString : List Op := [.fallible, .other, .fallible, .fallible, .fallible, .fallible, .fallible, .fallible, .fallible, .create, .other, .write false, .write false, .write false, .write false, .write false, .write false, .write false, .write true, .other]
+def ops_TsGenFromString : List Op := [.fallible, .other, .fallible, .fallible, .fallible, .fallible, .fallible, .fallible, .fallible, .fallible, .fallible, .fallible, .fallible, .fallible, .fallible, .fallible, .fallible, .fallible, .fallible, .fallible, .fallible, .fallible, .fallible, .fallible, .fallible, .fallible, .fallible, .fallible, .fallible, .fallible, .fallible, .fallible, .fallible, .fallible, .fallible, .fallible, .fallible, .fallible, .create, .other, .write false, .write false, .write false, .write false, .write false, .write false, .write false, .write true, .other]
 
 /-- calls made by WriteFile, in source order -/
 def calls_WriteFile : List String := ["template.New(\"gotemplate\").Parse(chooseTemplate)", "template.New(\"gotemplate\")", "panic(err)", "f.Close()", "templ.Execute(f, b)", "panic(err)"]
